@@ -40,7 +40,7 @@ struct SIMDVector {
     FASTOR_INLINE void aligned_load(const T *data)  { std::copy(data,data+Size,value); }
     FASTOR_INLINE void aligned_store(T *data) const { std::copy(value,value+Size,data);}
 
-    FASTOR_INLINE void mask_load(const scalar_value_type *a, uint8_t mask, bool Aligned=false) {
+    FASTOR_INLINE void mask_load(const scalar_value_type *a, uint64_t mask, bool Aligned=false) {
         // perhaps very inefficient but they never get used
         int maska[Size];
         mask_to_array(mask,maska);
@@ -52,7 +52,7 @@ struct SIMDVector {
         }
         unused(Aligned);
     }
-    FASTOR_INLINE void mask_store(scalar_value_type *a, uint8_t mask, bool Aligned=false) const {
+    FASTOR_INLINE void mask_store(scalar_value_type *a, uint64_t mask, bool Aligned=false) const {
         // perhaps very inefficient but they never get used
         int maska[Size];
         mask_to_array(mask,maska);
